@@ -599,6 +599,45 @@ def class_level_containers(prog, classes=STORAGE_CLASSES + ("Datastore", "Bucket
     return out
 
 
+STORAGE_STATE = {
+    # the attributes each storage class has (confirmed by reading); anything else that holds a container or is written outside
+    # the constructor is a copy of stored data kept on the side
+    "MemoryStorage": {"logger", "db", "_metadata", "testing"},
+    "SqliteStorage": {"logger", "conn", "testing", "enable_lazy_commit", "last_commit", "num_uncommitted_statements"},
+    "PeeweeStorage": {"logger", "db", "bucket_keys", "testing"},
+}
+
+
+def derived_state(prog, rep, rule="DERIVED-STATE"):
+    rep.rule(rule, "a storage object keeps its buckets and events in one place (MemoryStorage: db / _metadata; SqliteStorage: the connection and the commit bookkeeping; PeeweeStorage: the database handle and bucket_keys): no further attribute holds a container or is written outside the constructor. A second copy of stored data (a sorted view, an id table, a 'last read') answers later calls and goes stale when it is revalidated by anything weaker than the writes themselves")
+    for cname, allowed in STORAGE_STATE.items():
+        ci = prog.cls(cname)
+        found = {}
+        for m in ci.methods.values():
+            for n in walk_with_nested_exprs(m.node):
+                tg = []
+                if isinstance(n, ast.Assign):
+                    tg = [(t, n.value) for t in n.targets]
+                elif isinstance(n, ast.AnnAssign):
+                    tg = [(n.target, n.value)]
+                elif isinstance(n, ast.AugAssign):
+                    tg = [(n.target, None)]
+                for t, v in tg:
+                    base, keyed = t, False
+                    while isinstance(base, ast.Subscript):
+                        base, keyed = base.value, True
+                    if isinstance(base, ast.Attribute) and isinstance(base.value, ast.Name) and base.value.id == "self" and base.attr not in allowed:
+                        cont = keyed or isinstance(v, (ast.Dict, ast.List, ast.Set, ast.ListComp, ast.DictComp, ast.SetComp, ast.Tuple)) or (isinstance(v, ast.Call) and norm(v.func) in ("dict", "list", "set", "defaultdict", "collections.defaultdict", "OrderedDict", "collections.OrderedDict", "deque", "collections.deque", "sorted", "tuple"))
+                        if cont or m.name != "__init__":
+                            found.setdefault(base.attr, (m, n))
+                if isinstance(n, ast.Call) and isinstance(n.func, ast.Attribute) and n.func.attr in ("append", "setdefault", "update", "add", "extend", "insert", "pop", "clear") and isinstance(n.func.value, ast.Attribute) and norm(n.func.value.value) == "self" and n.func.value.attr not in allowed:
+                    found.setdefault(n.func.value.attr, (m, n))
+        for a, (m, n) in sorted(found.items()):
+            rep.violation(rule, cname, f"self.{a}", f"{m.short} keeps `{norm(n)[:70]}`: {cname} has a second place (`self.{a}`) that holds data derived from its buckets / events; later calls are answered from it, and it is only as fresh as its invalidation (a count that is unchanged by a delete followed by an insert, a key reused after a bucket was re-created, another connection writing the same file)", m.loc(n))
+        if not found:
+            rep.ok(rule, cname, "attributes", f"only {sorted(allowed)}", f"{ci.mod.relpath}:{ci.node.lineno}")
+
+
 def instance_state(prog, rep, rule="INSTANCE-STATE"):
     rep.rule(rule, "per-bucket state lives on the instance: no class of the datastore layer binds a mutable container at class level and then writes into it through self (every instance, i.e. every open datastore, would share it)")
     shared = class_level_containers(prog)
@@ -606,6 +645,7 @@ def instance_state(prog, rep, rule="INSTANCE-STATE"):
         rep.violation(rule, ci.name, f"{ci.name}.{a}", f"`{a} = {norm(v)}` is bound at class level and written through self: every {ci.name} instance in the process shares this one object, so buckets, events or cached keys of one datastore show up in, are overwritten by, or are deleted through another", f"{ci.mod.relpath}:{v.lineno}")
     if not shared:
         rep.ok(rule, "aw_datastore", "class-level containers", "none that instances write into", None)
+    derived_state(prog, rep)
     # the keyed containers are plain mappings: with a defaulting mapping (defaultdict, a dict subclass with __missing__ or with
     # rewritten keys) a mere READ of an unknown / deleted bucket creates an entry, and two different ids can name one entry
     for cname in STORAGE_CLASSES + ("Datastore",):
@@ -663,6 +703,14 @@ def forward_bucket(prog, rep, rule="FORWARD"):
             if isinstance(s, ast.Subscript) and norm(s.value) == "self.bucket_instances":
                 ok = is_param_ref(s.slice, gi, "bucket_id")
                 rep.check(ok, rule, gi.short, f"self.bucket_instances[{norm(s.slice)}]", "cache keyed by the requested id", "handle cache keyed by something else", gi.loc(s))
+        # what is stored under an id is a handle made for THAT id (not another bucket's handle found by some other look-up)
+        from .trace import deep as _deep
+
+        for a_ in walk_own(gi.node):
+            if isinstance(a_, ast.Assign) and any(isinstance(t_, ast.Subscript) and norm(t_.value) == "self.bucket_instances" for t_ in a_.targets):
+                v_ = _deep(a_.value, gi)
+                okh = isinstance(v_, ast.Call) and norm(v_.func) == "Bucket" and len(v_.args) == 2 and norm(v_.args[0]) == "self" and norm(v_.args[1]) == "bucket_id"
+                rep.check(okh, rule, gi.short, f"handle stored: {norm(a_.value)[:40]}", "Bucket(self, bucket_id)", f"`{norm(a_)[:80]}` files a handle under the requested id that was not made for it (`{norm(v_)[:60]}`): from then on every operation addressed to that id (also after a bucket of exactly that id is created) lands in another bucket", gi.loc(a_))
     # self-calls between storage methods
     for cname in STORAGE_CLASSES + ("AbstractStorage",):
         ci = prog.cls(cname)
@@ -706,6 +754,32 @@ def ddl_facts(prog, rep, rule="SCHEMA"):
         else:
             ok = v is not None and t.startswith("AutoField(")
         rep.check(ok, rule, mname, f"{mname}.{fld}", t, f"{mname}.{fld} = {t}", f"{ci.mod.relpath}:{getattr(v, 'lineno', ci.node.lineno)}")
+    # a bucket's row keeps its rowid for as long as the bucket exists: the events are tied to that number
+    n_b = 0
+    for s_ in sites:
+        st = s_.stmt
+        if st.kind == "insert" and st.table == "buckets":
+            n_b += 1
+            u = getattr(st, "upsert", None)
+            repl = getattr(st, "or_replace", False)
+            if repl:
+                rep.violation(rule, s_.fi.short, "INSERT OR REPLACE INTO buckets", "INSERT OR REPLACE resolves the conflict on the bucket id by DELETING the existing row and inserting a new one, which is given a new rowid: every event of the bucket still carries the old number in events.bucketrow, so after the statement the bucket reads as empty (and its events are orphans that a later bucket can inherit)", s_.loc(), expected="UPDATE buckets SET ... WHERE id = ?", found=st.text()[:120])
+            elif u is not None and u["action"] == "update" and any(c_ in ("rowid",) for c_, _e in u["sets"]):
+                rep.violation(rule, s_.fi.short, "ON CONFLICT DO UPDATE SET rowid", "the upsert re-assigns the bucket's rowid", s_.loc())
+        if st.kind == "update" and st.table == "buckets" and any(c_ == "rowid" for c_, _e in st.sets):
+            rep.violation(rule, s_.fi.short, "UPDATE buckets SET rowid", "the bucket's rowid is re-assigned: its events keep the old number", s_.loc())
+    # how a datetime is turned into text is the sqlite3 module's default: a registered adapter / converter is process-wide and
+    # changes what every connection (the peewee one included, whose ORDER BY compares the text) stores and reads
+    for fi_ in list(prog.funcs.values()):
+        for c_ in walk_with_nested_exprs(fi_.node):
+            if isinstance(c_, ast.Call) and norm(c_.func) in ("sqlite3.register_adapter", "sqlite3.register_converter", "register_adapter", "register_converter"):
+                rep.violation(rule, fi_.short, norm(c_.func), f"`{norm(c_)[:70]}` changes, for the whole process, how values are bound / read by every sqlite connection: the stored text of timestamps changes format (ordering and comparisons of the text column no longer follow the instants), for rows written from now on only", fi_.loc(c_))
+    for mi_ in prog.modules.values():
+        if not mi_.name.startswith("aw_"):
+            continue
+        for st_ in mi_.tree.body:
+            if isinstance(st_, ast.Expr) and isinstance(st_.value, ast.Call) and norm(st_.value.func) in ("sqlite3.register_adapter", "sqlite3.register_converter", "register_adapter", "register_converter"):
+                rep.violation(rule, f"module {mi_.name}", norm(st_.value.func), f"`{norm(st_.value)[:70]}` (at import) changes, for the whole process, how values are bound / read by every sqlite connection: the stored text of timestamps changes format, so ORDER BY / comparisons on the text column no longer follow the instants (a whole-second timestamp sorts after a later fractional one), and 'the newest event' is no longer the newest", f"{mi_.relpath}:{st_.lineno}")
 
 
 # ---------------------------------------------------------------------------
